@@ -1,11 +1,11 @@
 package props
 
 import (
-	"net/http"
 	"bytes"
 	"encoding/base64"
 	"encoding/xml"
 	"fmt"
+	"net/http"
 	"net/http/httptest"
 	"strings"
 	"time"
